@@ -8,8 +8,8 @@ CONSTANTS
   Stmts = {TRUE}
   Pes = {TRUE, FALSE}
   Gaps = {0, 1}
-  Stable = TRUE
-  AnyHit = FALSE
+  TwoUnits = FALSE
+  PerUnitFallback = FALSE
   Allowed = {}
 SPECIFICATION Spec
 ALIAS Alias
